@@ -113,6 +113,160 @@ example :
       some ([0,0,0,0x22, 0,0,0,0x11, 0x80,0,0,1, 7, 7]) ∧
     Device.chainRep 2 [0,0,0,0x22, 0,0,0,0x11, 0x80,0,0,1, 9] = some ([0x22, 0x11], [0x80,0,0,1, 9]) := by decide
 
+/-- a PAIRv1 message through a chain of forwarding hops (devices between raw PAIRv1 sockets), each with its own hop
+    limit: what the last receiver hands on -/
+def pair1Chain (g : GExpr) : List Nat → Bytes → Option (Bytes × Bytes)
+ | [], _ => none
+ | [ttl], w => pair1Recv g ttl w
+ | ttl :: rest, w => match pair1Recv g ttl w with
+   | none => none
+   | some (h, b) => pair1Chain g rest (h ++ b)
+
+/-- the hop word counts the receivers passed: a message that starts with hop count 0 and passes the receivers with hop
+    limits `ttls` (in order) arrives iff receiver i (from 0) has hop limit at least i and i < 255; it then carries the
+    count `ttls.length` and the unchanged payload -/
+theorem pair1_chain (g : GExpr) (hg : Pair1DropOK g) (payload : Bytes) :
+    ∀ (ttls : List Nat) (f : Nat), ttls ≠ [] → f + ttls.length < 256 →
+    pair1Chain g ttls ([0, 0, 0, UInt8.ofNat f] ++ payload) =
+      if (∀ i, (h : i < ttls.length) → f + i ≤ ttls[i] ∧ f + i < 255) then some ([0, 0, 0, UInt8.ofNat (f + ttls.length)], payload) else none := by
+  intro ttls
+  induction ttls with
+  | nil => intro f h; exact absurd rfl h
+  | cons t rest ih =>
+    intro f _ hlen
+    have hf : f < 256 := by simp at hlen; omega
+    cases rest with
+    | nil =>
+      simp only [pair1Chain, List.length_singleton]
+      rw [pair1_iff g hg t f hf payload]
+      have : (∀ i, (h : i < 1) → f + i ≤ [t][i] ∧ f + i < 255) ↔ (f ≤ t ∧ f < 255) := by
+        constructor
+        · intro h; simpa using h 0 (by omega)
+        · intro h i hi
+          have : i = 0 := by omega
+          subst this; simpa using h
+      by_cases hc : f ≤ t ∧ f < 255
+      · simp [hc]
+      · have hn : ¬ (∀ i, (h : i < 1) → f + i ≤ [t][i] ∧ f + i < 255) := fun h => hc (this.mp h)
+        simp [hc]
+    | cons t2 rest2 =>
+      simp only [pair1Chain]
+      rw [pair1_iff g hg t f hf payload]
+      by_cases hc : f ≤ t ∧ f < 255
+      · simp only [hc, and_self, if_true]
+        have hlen' : (f + 1) + (t2 :: rest2).length < 256 := by simp at hlen ⊢; omega
+        have := ih (f + 1) (by simp) hlen'
+        simp only [List.cons_append, List.nil_append] at this ⊢
+        rw [this]
+        have hiff : (∀ i, (h : i < (t2 :: rest2).length) → f + 1 + i ≤ (t2 :: rest2)[i] ∧ f + 1 + i < 255) ↔
+            (∀ i, (h : i < (t :: t2 :: rest2).length) → f + i ≤ (t :: t2 :: rest2)[i] ∧ f + i < 255) := by
+          constructor
+          · intro h i hi
+            cases i with
+            | zero => simpa using hc
+            | succ j =>
+              have := h j (by simp at hi ⊢; omega)
+              simp only [List.getElem_cons_succ]
+              constructor
+              · have := this.1; omega
+              · have := this.2; omega
+          · intro h i hi
+            have := h (i + 1) (by simp at hi ⊢; omega)
+            simp only [List.getElem_cons_succ] at this
+            constructor
+            · have := this.1; omega
+            · have := this.2; omega
+        have hl : f + 1 + (t2 :: rest2).length = f + (t :: t2 :: rest2).length := by simp; omega
+        by_cases hall : (∀ i, (h : i < (t2 :: rest2).length) → f + 1 + i ≤ (t2 :: rest2)[i] ∧ f + 1 + i < 255)
+        · rw [if_pos hall, if_pos (hiff.mp hall), hl]
+        · have hn := fun h => hall (hiff.mpr h)
+          rw [if_neg hall, if_neg hn]
+      · have hn : ¬ (∀ i, (h : i < (t :: t2 :: rest2).length) → f + i ≤ (t :: t2 :: rest2)[i] ∧ f + i < 255) := by
+          intro h
+          have h0 := h 0 (by simp)
+          simp only [List.getElem_cons_zero, Nat.add_zero] at h0
+          exact hc h0
+        rw [if_neg hc, if_neg hn]
+
+
+/-- a STAR message relayed through a chain of hubs, each with its own hop limit: what the last one hands on -/
+def starChain (g : GExpr) : List Nat → Bytes → Option (Bytes × Bytes)
+ | [], _ => none
+ | [ttl], w => starRecv g ttl w
+ | ttl :: rest, w => match starRecv g ttl w with
+   | none => none
+   | some (h, b) => starChain g rest (h ++ b)
+
+theorem u8_succ (f : Nat) (hf : f < 255) : (UInt8.ofNat f) + 1 = UInt8.ofNat (f + 1) := by
+  apply UInt8.toNat_inj.mp
+  simp [UInt8.toNat_add, UInt8.toNat_ofNat']
+
+theorem u8_toNat (f : Nat) (hf : f < 256) : (UInt8.ofNat f).toNat = f := by
+  simp [UInt8.toNat_ofNat']; omega
+
+/-- the hop byte counts the hubs passed: a message that leaves its sender with hop byte f and passes hubs with hop limits
+    `ttls` (in order) is relayed by all of them iff hub i (from 0) has hop limit greater than f + i; it then carries the
+    hop byte f + `ttls.length` and the unchanged payload -/
+theorem star_chain (g : GExpr) (hg : StarDropOK g) (payload : Bytes) :
+    ∀ (ttls : List Nat) (f : Nat), ttls ≠ [] → f + ttls.length < 256 →
+    starChain g ttls ([0, 0, 0, UInt8.ofNat f] ++ payload) =
+      if (∀ i, (h : i < ttls.length) → f + i + 1 ≤ ttls[i]) then some ([0, 0, 0, UInt8.ofNat (f + ttls.length)], payload) else none := by
+  intro ttls
+  induction ttls with
+  | nil => intro f h; exact absurd rfl h
+  | cons t rest ih =>
+    intro f _ hlen
+    have hf : f < 255 := by simp at hlen; omega
+    have hone := star_iff g hg t (UInt8.ofNat f) payload
+    rw [u8_toNat f (by omega), u8_succ f hf] at hone
+    cases rest with
+    | nil =>
+      simp only [starChain, List.length_singleton]
+      rw [hone]
+      have : (∀ i, (h : i < 1) → f + i + 1 ≤ [t][i]) ↔ f + 1 ≤ t := by
+        constructor
+        · intro h; simpa using h 0 (by omega)
+        · intro h i hi
+          have : i = 0 := by omega
+          subst this; simpa using h
+      by_cases hc : f + 1 ≤ t
+      · rw [if_pos hc, if_pos (this.mpr hc)]
+      · rw [if_neg hc, if_neg (fun h => hc (this.mp h))]
+    | cons t2 rest2 =>
+      simp only [starChain]
+      rw [hone]
+      by_cases hc : f + 1 ≤ t
+      · simp only [hc, if_true]
+        have hlen' : (f + 1) + (t2 :: rest2).length < 256 := by simp at hlen ⊢; omega
+        have := ih (f + 1) (by simp) hlen'
+        simp only [List.cons_append, List.nil_append] at this ⊢
+        rw [this]
+        have hiff : (∀ i, (h : i < (t2 :: rest2).length) → f + 1 + i + 1 ≤ (t2 :: rest2)[i]) ↔
+            (∀ i, (h : i < (t :: t2 :: rest2).length) → f + i + 1 ≤ (t :: t2 :: rest2)[i]) := by
+          constructor
+          · intro h i hi
+            cases i with
+            | zero => simpa using hc
+            | succ j =>
+              have := h j (by simp at hi ⊢; omega)
+              simp only [List.getElem_cons_succ]
+              omega
+          · intro h i hi
+            have := h (i + 1) (by simp at hi ⊢; omega)
+            simp only [List.getElem_cons_succ] at this
+            omega
+        have hl : f + 1 + (t2 :: rest2).length = f + (t :: t2 :: rest2).length := by simp; omega
+        by_cases hall : (∀ i, (h : i < (t2 :: rest2).length) → f + 1 + i + 1 ≤ (t2 :: rest2)[i])
+        · rw [if_pos hall, if_pos (hiff.mp hall), hl]
+        · rw [if_neg hall, if_neg (fun h => hall (hiff.mpr h))]
+      · have hn : ¬ (∀ i, (h : i < (t :: t2 :: rest2).length) → f + i + 1 ≤ (t :: t2 :: rest2)[i]) := by
+          intro h
+          have h0 := h 0 (by simp)
+          simp only [List.getElem_cons_zero, Nat.add_zero] at h0
+          exact hc h0
+        rw [if_neg hc, if_neg hn]
+
+
 /-- forwarding loops die out: each crossing adds one word, so after ttl+1 crossings it is dropped -/
 theorem loop_dies (P : HopSite) (hwf : WellFormed P) (ttl : Nat) (hdr0 : Bytes) (ws : List Word) (idw : Word)
     (payload : Bytes) (hws : ∀ w ∈ ws, w.top = false) (hid : idw.top = true) (hlong : ttl < ws.length + 1) :
